@@ -31,7 +31,7 @@
                      for PointwiseNorm, |z| > 0 for ComplexModulus.  (Norm/Dist singularities are covered by
                      [deriv_ok]: the code raises there.) *)
 From Coq Require Import Reals List Bool ZArith.
-From Verif Require Import Base.Num Base.Vec C06.Syntax Gen.UfuncDeriv C06.Model C06.Calc C06.Lin C06.LinMap C06.Leaves C06.Proofs C06.FModel C06.FProofs.
+From Verif Require Import Base.Num Base.Vec C06.Syntax Gen.UfuncDeriv C06.Model C06.Calc C06.Lin C06.LinMap C06.Leaves C06.Proofs C06.FModel C06.FProofs Gen.Derivatives C06.Interp C06.Tie.
 Import ListNotations.
 Local Open Scope R_scope.
 
@@ -183,6 +183,43 @@ Theorem ufunc_linear_flag_correct :
   forall f : ufn, ufunc_linear f = true -> exists c : R, forall a : R, usem (PR af ad adm arn) f a = c * a.
 Proof. exact ufunc_linear_scale. Qed.
 Print Assumptions ufunc_linear_flag_correct.
+
+(* TIE BY REGENERATION.  Gen/Derivatives.v is re-emitted on every run from the `derivative`
+   methods and `linear=` flags of the source (translate/derivatives.py, fail-closed):
+   [deriv_rule], [linear_flag] for the nine expression classes of operator.py,
+   [block_rule] for Broadcast/Reduction/Diagonal/ProductSpaceOperator, [leaf_rule] for
+   PowerOperator, NormOperator, DistOperator, ConstantOperator, RealPart, ImagPart and the
+   base class.  C06/Interp.v gives the rule syntax its meaning.  The theorems below say that
+   the hand-written model about which T1 is proved IS that interpretation -- for every
+   carrier, every operator, every point.  A source change (another evaluation point, a
+   dropped factor, a swapped product-rule operand, a changed shortcut or flag) changes the
+   generated rule and breaks these proofs. *)
+Theorem model_derivative_is_regenerated_rule :
+  forall (T : Type) (N : Num T) (P : prims T) (e : @oexpr T) (x : list T) (c : oclass),
+  class_of e = Some c ->
+  derivative P e x = interp P (derivative P) e x (deriv_rule c).
+Proof. exact (@derivative_is_source_rule). Qed.
+Print Assumptions model_derivative_is_regenerated_rule.
+
+Theorem model_linear_flag_is_regenerated :
+  forall (T : Type) (N : Num T) (e : @oexpr T) (c : oclass),
+  class_of e = Some c -> is_lin e = ilin e (linear_flag c).
+Proof. exact (@is_lin_is_source_flag). Qed.
+Print Assumptions model_linear_flag_is_regenerated.
+
+Theorem model_block_derivative_is_regenerated_rule :
+  forall (T : Type) (N : Num T) (P : prims T) (e : @oexpr T) (x : list T) (c : bclass),
+  bclass_of e = Some c ->
+  derivative P e x = binterp P (derivative P) e x (block_rule c).
+Proof. exact (@block_derivative_is_source_rule). Qed.
+Print Assumptions model_block_derivative_is_regenerated_rule.
+
+Theorem model_leaf_derivative_is_regenerated_rule :
+  forall (T : Type) (N : Num T) (P : prims T) (l : @leaf T) (x : list T) (c : lclass),
+  lclass_of l = Some c ->
+  lderiv P l x = linterp P l x (leaf_rule c) /\ lderiv_ok P l x = linterp_ok P l x (leaf_rule c).
+Proof. exact (@leaf_derivative_is_source_rule). Qed.
+Print Assumptions model_leaf_derivative_is_regenerated_rule.
 
 (* T1 for functionals (odl/solvers/functional/functional.py, model C06/FModel.v):
    Functional.derivative(x) = InnerProductOperator(gradient(x)).  For EVERY tree of
